@@ -42,7 +42,15 @@ print("%d %s sites in functions under contract" % (len(sites), kind), flush=True
 bad = 0
 for rel, ln, row, units in sites:
     src = open(os.path.join(REPO, rel), "rb").read()
-    if kind == "ifelse":
+    if kind == "unchecked":
+        ws, we = map(int, row["whole"].split(":"))
+        r0, r1 = map(int, row["recv"].split(":"))
+        a0, a1 = map(int, row["arg"].split(":"))
+        L, R = src[ws:we].decode(), "checked index"
+        amp = "&mut " if row["mut"] == "true" else "&"
+        new = src[:ws] + ("(" + amp + src[r0:r1].decode() + "[" + src[a0:a1].decode() + "])").encode() + src[we:]
+        ls = le = rs = re_ = 0
+    elif kind == "ifelse":
         cs, ce = map(int, row["cond"].split(":"))
         ts, te = map(int, row["then"].split(":"))
         es, ee = map(int, row["else"].split(":"))
@@ -51,7 +59,7 @@ for rel, ln, row, units in sites:
         ls = le = rs = re_ = 0
     else:
         ls, le = map(int, row["left"].split(":"))
-    if kind != "ifelse":
+    if kind not in ("ifelse", "unchecked"):
         rs, re_ = map(int, row["right"].split(":"))
         L, R = src[ls:le].decode(), src[rs:re_].decode()
     mid = src[le:rs]
@@ -61,7 +69,7 @@ for rel, ln, row, units in sites:
         if op not in flip:
             continue
         mid = (" " + flip[op] + " ").encode()
-    if kind != "ifelse":
+    if kind not in ("ifelse", "unchecked"):
         new = src[:ls] + ("(" + R + ")").encode() + mid + ("(" + L + ")").encode() + src[re_:]
     open(os.path.join(scratch, rel), "wb").write(new)
     for un in units:
